@@ -34,6 +34,8 @@ POOL = {
     "mx_o": (("X",), ("outer",)), "mx_l2": (("X",), ("left",)),
     "mxy_cc": (("X", "Y"), ("center", "center")), "mxy_cc2": (("X", "Y"), ("center", "center")),
     "mxy_lc": (("X", "Y"), ("left", "center")), "mxy_cl": (("X", "Y"), ("center", "left")),
+    # the same positions stored with the dimensions in the other order (a slot is a position, not a memory layout)
+    "mxy_cc_t": (("X", "Y"), ("center", "center")), "mxy_lc_t": (("X", "Y"), ("left", "center")),
 }
 XPOS = {"center": "xc", "left": "xl", "right": "xr", "outer": "xo"}
 YPOS = {"center": "yc", "left": "yl"}
@@ -48,6 +50,8 @@ def make_ds():
     ds = xr.Dataset(coords=coords)
     for k, (name, (axes, pos)) in enumerate(sorted(POOL.items())):
         dims = [XPOS[pos[0]]] + ([YPOS[pos[1]]] if len(axes) == 2 else [])
+        if name.endswith("_t"):
+            dims = dims[::-1]
         shape = [ds.sizes[d] for d in dims]
         vals = 10.0 * (k + 1) + np.arange(int(np.prod(shape))).reshape(shape) * 0.5
         ds[name] = (dims, vals)
